@@ -463,20 +463,56 @@ type nested struct {
 // schemaRejections validates the serialised envelope against the envelope
 // schema, its doc against the schema named by the doc's $schema, and every
 // embedded object carrying a $schema (complements) against its own.
+var uriScheme = regexp.MustCompile(`^[A-Za-z][A-Za-z0-9+.\-]*:`)
+
+// uriDefect names why a string the library accepted as a URL is not an RFC
+// 3986 URI: the three recorded ways (checked in this order), or "other".
+func uriDefect(v string) string {
+	if !uriScheme.MatchString(v) {
+		return "no-scheme"
+	}
+	for i := 0; i < len(v); i++ {
+		if v[i] >= 0x80 {
+			return "non-ascii"
+		}
+	}
+	if strings.ContainsAny(v, "{}|^\"<>\\`[]") || strings.Count(v, "#") > 1 {
+		return "disallowed-character"
+	}
+	return "other"
+}
+
 func schemaRejections(envJSON []byte) []rejection {
 	var out []rejection
+	var instance json.RawMessage
 	add := func(short, prefix string, errs []SchemaError, err error) {
 		if err != nil {
 			out = append(out, rejection{"schema-unusable:" + short, fmt.Sprintf("the validator cannot use schema %s: %v", short, err)})
 			return
 		}
 		for _, e := range errs {
+			if e.Keyword == "format" && strings.HasSuffix(e.Message, "is not a 'uri'") {
+				// one root cause for every member published with format uri: named by
+				// what is wrong with the value, not by where the member sits
+				if tree, err := decodeTree(instance); err == nil {
+					if v, ok := getAt(tree, e.Path); ok {
+						if str, ok := v.(string); ok {
+							out = append(out, rejection{
+								sig: "schema-rejects:format-uri:" + uriDefect(str),
+								msg: fmt.Sprintf("schema %s rejects %s%s (format uri): %q is not an RFC 3986 URI (%s)", short, prefix, e.Path, str, uriDefect(str)),
+							})
+							continue
+						}
+					}
+				}
+			}
 			out = append(out, rejection{
 				sig: fmt.Sprintf("schema-rejects:%s:%s:%s", short, e.Keyword, normPath(e.Path)),
 				msg: fmt.Sprintf("schema %s rejects %s%s (%s, schema path %s): %s", short, prefix, e.Path, e.Keyword, e.SchemaPath, e.Message),
 			})
 		}
 	}
+	instance = envJSON
 	errs, err := validateAgainst(envelopeID, envJSON)
 	add("envelope", "", errs, err)
 	var env jsonObj
@@ -491,11 +527,13 @@ func schemaRejections(envJSON []byte) []rejection {
 		out = append(out, rejection{"schema-rejects:envelope:doc-without-schema:/doc", "the serialised doc carries no $schema"})
 		return out
 	}
+	instance = doc
 	errs, err = validateAgainst(probe.Schema, doc)
 	add(shortSchema(probe.Schema), "doc", errs, err)
 	var ns []nested
 	nestedObjects(doc, "", &ns)
 	for _, n := range ns {
+		instance = n.raw
 		errs, err = validateAgainst(n.id, n.raw)
 		add(shortSchema(n.id), "doc"+n.ptr, errs, err)
 	}
@@ -1766,6 +1804,9 @@ func leafValue(t *rapid.T, b *base, s site) (json.RawMessage, string) {
 		add("shape", 1, percentShapes)
 	case "string":
 		add("harvest", 2, harvestField[field])
+		if strings.HasSuffix(field, ".URL") {
+			add("url", 6, urlShapes)
+		}
 		add("shape", 3, stringShapes)
 	case "bool":
 		return json.RawMessage(pick(t, "bool", []string{"true", "false"})), "shape"
@@ -2093,6 +2134,107 @@ func enumRequired(yield func(MutCase) bool) {
 	}
 }
 
+// every list (present or not) of every valid example gains a null element,
+// once per Go field: the library may refuse it, drop it, or must serialise
+// something the schema accepts
+func enumNullElements(yield func(MutCase) bool) {
+	loadBases()
+	seen := map[string]bool{}
+	idx := 0
+	for _, b := range bases {
+		for _, s := range b.Sites {
+			if s.Kind != "slice" || s.Calc || excluded(s) {
+				continue
+			}
+			f := s.Field
+			if f == "" || seen[f] {
+				continue
+			}
+			seen[f] = true
+			idx++
+			if idx%vh.Cfg().Shards != vh.Cfg().Shard {
+				continue
+			}
+			if !yield(MutCase{Path: b.Path, Ops: []Op{{Op: "append", Ptr: s.Ptr, Value: json.RawMessage(`null`), Kind: "slice:append-null:" + s.Elem}}}) {
+				return
+			}
+		}
+	}
+}
+
+var urlShapes = []string{
+	"https://example.com", "http://example.com/path?q=1#frag", "example.com", "www.example.com/path", "example.com:8080",
+	"//example.com", "http://exämple.com", "https://例え.jp/", "https://example.com/a b", "https://example.com/{id}",
+	"https://example.com/%zz", "https://example.com/a%20b", "https://[::1]/", "HTTPS://EXAMPLE.COM", "ftp://example.com/f",
+	"mailto:billing@example.com", "urn:isbn:0451450523", "https://user:pw@example.com:8443/x", "http://localhost", "http://127.0.0.1:8080/",
+	"https://example.com/\"quoted\"", "https://example.com/<x>", "https://example.com/a|b", "https://example.com/a^b", "https://example.com/`x`",
+	"https://example.com/path\\back", "https://example.com/#a#b", "https://example.com/?a=[1]", "http://example.com./", "https://xn--e1afmkfd.xn--p1ai/",
+}
+
+// every member published with `format: uri` receives every URL shape once
+func enumURLs(yield func(MutCase) bool) {
+	loadBases()
+	type at struct {
+		b *base
+		s site
+	}
+	found := map[string]at{}
+	var order []string
+	for _, b := range bases {
+		for _, s := range b.Sites {
+			if s.Kind != "leaf" || s.GoType != "string" || !strings.HasSuffix(s.Field, ".URL") {
+				continue
+			}
+			cur, ok := found[s.Field]
+			if !ok {
+				order = append(order, s.Field)
+			}
+			if !ok || (!cur.s.Present && s.Present) {
+				found[s.Field] = at{b, s}
+			}
+		}
+	}
+	idx := 0
+	for _, f := range order {
+		a := found[f]
+		for _, v := range urlShapes {
+			idx++
+			if idx%vh.Cfg().Shards != vh.Cfg().Shard {
+				continue
+			}
+			if !yield(MutCase{Path: a.b.Path, Ops: []Op{{Op: "set", Ptr: a.s.Ptr, Value: jstr(v), Kind: "leaf:url:" + f}}}) {
+				return
+			}
+		}
+	}
+	// lists of things with a URL that the examples seldom carry: a new element
+	templates := map[string]string{
+		"org.Website":    `{"url":%s}`,
+		"org.Attachment": `{"key":"annex","name":"annex.pdf","url":%s}`,
+		"head.Link":      `{"key":"portal","url":%s}`,
+	}
+	done := map[string]bool{}
+	for _, b := range bases {
+		for _, s := range b.Sites {
+			tmpl, ok := templates[s.Elem]
+			if s.Kind != "slice" || !ok || done[s.Field] {
+				continue
+			}
+			done[s.Field] = true
+			for _, v := range urlShapes {
+				idx++
+				if idx%vh.Cfg().Shards != vh.Cfg().Shard {
+					continue
+				}
+				el := json.RawMessage(fmt.Sprintf(tmpl, string(jstr(v))))
+				if !yield(MutCase{Path: b.Path, Ops: []Op{{Op: "append", Ptr: s.Ptr, Value: el, Kind: "slice:append-url:" + s.Elem}}}) {
+					return
+				}
+			}
+		}
+	}
+}
+
 func enumFields(yield func(MutCase) bool) {
 	loadBases()
 	type at struct {
@@ -2313,14 +2455,16 @@ func judgeDef(c DefCase, o *vh.Obs) {
 
 func init() {
 	vh.Describe(
-		"Referee: tools/schema_oracle.py (python3-vt, jsonschema Draft202012Validator + referencing.Registry holding every file of data/schemas by $id; format asserted for date, uuid, date-time only), one process per shard, spoken to line by line. "+
+		"Referee: tools/schema_oracle.py (python3-vt, jsonschema Draft202012Validator + referencing.Registry holding every file of data/schemas by $id; format asserted for date, uuid, date-time and uri - the four formats the published schemas use), one process per shard, spoken to line by line. "+
 			"`schemas` (exhaustive, one case per file under data/schemas): the file loads, declares the 2020-12 dialect, its $id is the URL its path implies, it passes the 2020-12 meta-schema (check_schema), every $ref resolves inside the registry, every `pattern` and patternProperties key compiles in Python re and in Go regexp (a Go failure caused only by an ECMA look-around or back-reference is classed, not failed; identity escapes such as `\\:` that ECMAScript unicode mode refuses are classed `pattern-needs-non-unicode-mode`, not failed). "+
 			"`corpus` (exhaustive): each of the example sources is enveloped by the harness, calculated, and - only if Envelope.Validate passes - serialised; the envelope is validated against the envelope schema, its doc against the schema named by the doc's $schema, and every embedded object carrying a $schema (complements) against its own. "+
 			"`definitions` (exhaustive): every registered regime, addon and catalogue definition that passes its own Validate is serialised with schema.NewObject and validated against tax/regime-def, tax/addon-def, tax/catalogue-def. "+
 			"`fields` (exhaustive sweep) and `mutations` (rapid): a case is a corpus path plus 1-3 edits (JSON pointer, set/remove/append, value) of the calculated serialised envelope; positions and their Go types come from walking the calculated Go structure by reflection (calculated members, header uuid/digest and $schema excluded). `fields` gives every Go field of type cbc.Key, cbc.Code, org.Unit, country/currency/l10n code, uuid.UUID, cal.Date/DateTime every shape of its pool once (valid shapes and shapes outside the published pattern / list), at the first corpus position of that field. `mutations` first draws a category (key, code, enumerated code, uuid, date, extension map, meta map, slice, struct, string, number, absent optional member) then a position and a value: keys from the Go definition lists (invoice/order/delivery/payment types, note keys, payment means, term keys, rounding rules, units, identity/inbox/rate/tag keys of the document's regime and addons), codes, values harvested from the same field elsewhere in the corpus, whole sub-structures of the same Go type transplanted from other corpus documents, extension keys and values from the regime/addon/catalogue definitions, meta entries, tags offered by the regime/addons, UUID versions 1-8 and other spellings google/uuid reads, dates, long/short/unicode strings, optional members set and unset, array elements appended and removed. The edited envelope is parsed, calculated and validated by the library; cases the library rejects are discarded (counted: kept-rate = 1 - discarded/evaluations); for kept cases the published schemas must accept the serialised result. "+
-			"Violation signature: schema-rejects:<schema short name>:<keyword>:<instance path with indices as *>. "+
+			"`null_elements` (exhaustive): every list of the Go structure, present or not, gains a null element once per Go field. `urls` (exhaustive): every member published with format uri receives 30 URL shapes (with and without scheme, internationalised, unusual schemes, userinfo, ports, IP literals, characters outside RFC 3986, bad escapes), in place and as new website / attachment / header link elements. "+
+			"Violation signature: schema-rejects:<schema short name>:<keyword>:<instance path with indices as *>; a value that fails format uri is named by what is wrong with it instead (schema-rejects:format-uri:no-scheme | non-ascii | disallowed-character | other), because the five members share one validator. "+
 			"Non-trivial (`mutations`, `fields`): the case was kept and, according to the published schema files read as data (following $ref, allOf, properties, patternProperties, items and the $schema of embedded objects), at least one edited position is governed by pattern, enum/const (incl. oneOf/anyOf of consts), an asserted format, or - for members added or removed - the parent's `required`. `corpus` / `definitions`: the document passed the library's validation and was put to the validator; `schemas`: the file exists.",
-		"format is asserted only for date, uuid, date-time (RFC 3339 / RFC 4122 syntax); uri, email and other formats are annotations",
+		"format is asserted for date, uuid, date-time and uri (RFC 3339 / RFC 4122 / RFC 3986 appendix A syntax, own implementations; an IP literal is only checked for its brackets)",
+		"URLs the library accepts that are not URIs because they lack a scheme, contain non-ASCII characters or one of { } | ^ \" < > \\ ` [ ] / a second # are three recorded findings (witnesses in findings/); any other reason is reported",
 		"Python re semantics are used for `pattern`; the published patterns consist of literal character classes, anchors and quantifiers only, on which Python re, Go regexp and ECMA 262 agree (Python's `$` also matches before a final newline, which can only make the referee more lenient)",
 		"a crash of Calculate/Validate on a mutated document is C14's subject and is counted as a discarded case here",
 		"by construction the generators do not produce the zero date 0000-00-00 nor the alternative regime codes GR/XI/XU as $regime (known findings with witnesses in findings/)",
@@ -2330,5 +2474,7 @@ func init() {
 	vh.Enum("definitions", enumDefs, judgeDef)
 	vh.Enum("required", enumRequired, judgeMutation)
 	vh.Enum("fields", enumFields, judgeMutation)
+	vh.Enum("null_elements", enumNullElements, judgeMutation)
+	vh.Enum("urls", enumURLs, judgeMutation)
 	vh.Rapid("mutations", 1800, 96000, genMutation, judgeMutation)
 }
